@@ -119,6 +119,15 @@ SHAPES = [
                     4024, 5001, 224000, 101000, 31001, 31031, 8023, 101000, 31001, 224255]),
     ('bitmap-over-replication', [102002, 1001, 12001, 222000, 101000, 31001, 31031, 101000, 31001, 33003]),
     ('marker-under-201', [12001, 4024, 223000, 101002, 31031, 201130, 223255, 201000]),
+    # one element / one replication descriptor met in several contexts of the same message (whatever is remembered "per
+    # descriptor id" - widths, labels, packings, node lists - is wrong for the second context)
+    ('same-element-all-contexts', [12001, 201130, 12001, 201000, 202129, 12001, 202000, 207001, 12001, 207000, 204003, 31021,
+                                   12001, 204000, 204006, 31021, 12001, 204000, 203014, 12001, 203255, 12001, 203000, 12001]),
+    ('same-code-element-assoc-widths', [20011, 204004, 31021, 20011, 204000, 20011, 204002, 31021, 20011, 204000, 20011]),
+    ('same-element-plain-and-marked', [12001, 11002, 12001, 225000, 236000, 101000, 31001, 31031, 8024, 101000, 31001, 225255, 12001, 11002]),
+    ('same-string-two-widths', [1015, 208003, 1015, 208000, 1019, 1015]),
+    ('same-replication-other-contents', [101002, 1001, 101002, 12001, 101000, 31001, 1001, 101000, 31001, 12001,
+                                         102002, 1001, 12001, 102002, 12001, 1001]),
 ]
 
 
